@@ -140,7 +140,7 @@ Print Assumptions C16_oracle_is_spec.
 Module Examples.
 Local Open Scope N_scope.
 Definition nh (a : N) : N := a.
-Lemma n_leaf_ok : leaf_ok N nh N.eqb N.ltb.
+Example n_leaf_ok : leaf_ok N nh N.eqb N.ltb.
 Proof.
   constructor.
   - intros a. apply N.eqb_refl.
